@@ -257,7 +257,7 @@ def rule_session_checked_unplug(ck, rid="C01.R5"):
     sid = "session_id"
     n_sites = 0
     for n, c in calls_in(fl, "unplug"):
-        recv = c.func.value
+        recv = fl.expand(c.func.value, n)       # the EVSE may be held in a temporary
         if not (isinstance(recv, ast.Subscript) and dotted(recv.value) == "self._EVSEs"):
             continue
         n_sites += 1
